@@ -55,8 +55,41 @@ def run(cx):
     r2(cx)
 
 
+def guarded_in(body, cfg, du, bb, writes_bbs):
+    """is block `bb` reachable only through the false edge of an is_oneway() test (and unreachable from its true edge)"""
+    guards = oneway_guard_edges(body, cfg, du)
+    if not guards: return False
+    falses = {f for _, f in guards}
+    dominated = bb not in cfg.reach(0, blocked_edges=falses)
+    leaks = any(bb in cfg.reach(tr[2]) for tr, _ in guards)
+    return dominated and not leaks
+
+
 def r1(cx):
     nfun = 0; nwrites = 0
+    by_path = {}
+    for body in cx.mir.bodies():
+        if body.promoted is None: by_path.setdefault(body.path, []).append(body)
+    def callers_of(fbody):
+        out = []
+        for b in cx.mir.bodies(fbody.pkg):
+            if b.promoted is not None: continue
+            for t in b.calls():
+                if not t.callee.indirect and fbody.path in (t.callee.resolved, t.callee.path): out.append((b, t))
+        return out
+    def site_guarded(body, bb, depth=0):
+        """the program point (body, bb) executes only for non-oneway requests: guarded here, or every caller's call site is"""
+        cfg = Cfg(body); du = DefUse(body)
+        if guarded_in(body, cfg, du, bb, None): return True, None
+        if depth >= 3: return False, "call chain too deep"
+        if body.public and "Call" in (body.impl_self or ""):
+            return False, "%s is part of the public API and writes without a guard" % body.path
+        cs = callers_of(body)
+        if not cs: return False, "%s has no guard and no caller that guards it" % body.path
+        for cb, ct in cs:
+            ok, why = site_guarded(cb, ct.bb, depth + 1)
+            if not ok: return False, "called from %s (%s) without passing is_oneway()==false%s" % (cb.path, ct.sp, ("; " + why) if why else "")
+        return True, None
     for body in cx.mir.bodies():
         if body.promoted is not None: continue
         du = DefUse(body)
@@ -66,39 +99,15 @@ def r1(cx):
         fkey = "%s:%s" % (body.pkg, body.path)
         if fkey in ALLOWED_RAW_WRITERS:
             cx.note("C04.R1", fkey, body.sp, "allow-listed raw writer: " + ALLOWED_RAW_WRITERS[fkey]); continue
-        cfg = Cfg(body)
-        guards = oneway_guard_edges(body, cfg, du)
         for i, t in enumerate(writes):
             nwrites += 1
             key = "%s:%s#%d" % (fkey, t.callee.name, sum(1 for x in writes[:i] if x.callee.name == t.callee.name))
             site = "%s %s" % (t.sp, body.path)
-            if not guards:
-                cx.bad("C04.R1", key, site, "writes to Call.writer without consulting is_oneway(): a oneway request would be answered", witness={"write": t.sp}); continue
-            # reachable only via the false edge: blocking all false edges makes the write unreachable
-            falses = {f for _, f in guards}
-            dominated = t.bb not in cfg.reach(0, blocked_edges=falses)
-            # and the true edge never reaches a write
-            leaks = [w for tr, _ in guards for w in writes if w.bb in cfg.reach(tr[2])]
-            cx.check(dominated and not leaks, "C04.R1", key, site,
-                     ("a path reaches this write without passing the is_oneway()==false edge; " if not dominated else "") +
-                     ("the is_oneway()==true edge can still reach a write" if leaks else ""),
-                     note_ok="guarded by is_oneway()==false", witness={"write": t.sp})
-    cx.floor("C04.R1", "functions writing to Call.writer", nfun, 3)
-    cx.floor("C04.R1", "guarded protocol writes", nwrites, 4)
-    # who-may-touch: inside package varlink only these functions may mention Call.writer at all
-    allowed = {"<Call<'_> as CallTrait>::reply_struct", "Call::<'a>::reply_parameters", "Call::<'a>::new", "Call::<'a>::new_upgraded"}
-    for body in cx.mir.bodies("varlink"):
-        if body.promoted is not None: continue
-        touches = False
-        for s in body.stmts():
-            if s.kind != "assign": continue
-            pl = [o.place for o in s.ops if o.place is not None] + ([s.rplace] if s.rplace is not None else []) + [s.lhs]
-            if any("writer" in p.fields() and is_call_ty(body.ty(p.l)) for p in pl): touches = True
-            if s.rv == "agg" and isinstance(s.agg, dict) and s.agg.get("adt", "").split("::")[-1] == "Call": touches = True
-        if touches:
-            cx.check(body.path in allowed, "C04.R1", "varlink:%s:touches-Call.writer" % body.path, body.sp,
-                     "a new function in the library reaches Call.writer; it must be reviewed for the oneway guard",
-                     note_ok="known writer/constructor")
+            ok, why = site_guarded(body, t.bb)
+            cx.check(ok, "C04.R1", key, site, "this write to Call.writer can execute for a oneway request: %s" % (why or "a path reaches it without passing the is_oneway()==false edge, or the ==true edge still reaches it"),
+                     note_ok="only reachable for non-oneway requests", witness={"write": t.sp})
+    cx.floor("C04.R1", "functions writing to Call.writer", nfun, 2)
+    cx.floor("C04.R1", "protocol writes examined", nwrites, 2)
 
 
 def r1_flag(cx, rule="C04.R1", only=None):
